@@ -4,28 +4,30 @@
 (* demand by harness/graphloop.py (DESIGN.md 2, mode G): every request of    *)
 (* the configured set, back to back in every order, under EVERY stall        *)
 (* pattern of the beat consumer.                                             *)
-EXTENDS AxiB2BContract, Json, IOUtils
+EXTENDS AxiB2BContract, Json, IOUtils, GraphLookup
 
 G == JsonDeserialize(IOEnv.GRAPH)
 NDuts == Len(G.duts)
 
 VARIABLES d,   \* which DUT of the batch this behaviour is about
-          s    \* implementation state (node of G.duts[d]); -1 = edge not yet known
-vars == <<d, s, hold, n, oprev, obs>>
+          s,   \* implementation state (node of G.duts[d]); -1 = edge not yet known
+          ph   \* toggles on a step that changes nothing else: an expander that hangs (a fixpoint of the
+               \* product) must be an infinite NON-stuttering behaviour, or WF_vars(Next) would not see it
+vars == <<d, s, ph, hold, n, oprev, obs>>
 
 C == G.duts[d].cfg
 
-Init == /\ d \in 1..NDuts /\ s = 0 /\ CInit
+Init == /\ d \in 1..NDuts /\ s = 0 /\ ph = 0 /\ CInit
 
 Step(iv) ==
   /\ s >= 0
-  /\ LET k == ToString(iv) IN
-       IF k \in DOMAIN G.duts[d].succ[s + 1]
-       THEN LET e == G.duts[d].succ[s + 1][k] IN
-            /\ s' = e.d /\ d' = d
-            /\ CStep(C, iv, e.o)
+  /\ LET e == GLookup(G.duts[d].succ[s + 1], iv) IN
+       IF e # <<>>
+       THEN /\ s' = e[3] /\ d' = d
+            /\ CStep(C, iv, e[2])
+            /\ ph' = IF e[3] = s /\ cvars' = cvars THEN 1 - ph ELSE 0
        ELSE /\ PrintT(<<"NEED", d, s, iv>>)
-            /\ s' = -1 /\ d' = d /\ UNCHANGED cvars
+            /\ s' = -1 /\ d' = d /\ ph' = 0 /\ UNCHANGED cvars
 
 Next == \E iv \in Inputs(C) : Step(iv)
 
